@@ -147,6 +147,17 @@ func vh_SAE() {
 		vAssert(post.term == sent.Term, "C05|C17.only-replies-of-the-current-term-count")
 		vAssert(mid.state == Leader, "C05.only-leader-counts-replies")
 	}
+	// if-direction (C16.renew, C17.renew, C15): a reply of the request's own term that reaches the node while it still leads
+	// that term, from a voting member, in a live round, is contact with that voter - whether it accepts or rejects the
+	// entries (a follower that is being repaired answers many rounds in a row with rejections)
+	if !rpcFailed && cntp != nil && targetVoter && mid.state == Leader && mid.term == sent.Term && resp.Term == sent.Term {
+		vCover("current-term-voter-reply")
+		vAssert(cnt == cnt0+1, "C15|C16|C17.every-current-term-reply-from-a-voter-counts-as-contact")
+		if 2*(cnt0+1) > nv {
+			// from now on the lease runs for (about) its full duration again
+			vAssert(lease0.expiration.Sub(vTimeAgo(0)) > vLeaseDuration-vTimeMargin, "C15|C16|C17.contact-with-a-majority-of-voters-renews-the-lease")
+		}
+	}
 	if lease0.expiration != exp0 {
 		vCover("lease-renewed")
 		vAssert(cntp != nil, "C17.renewal-needs-a-live-round")
